@@ -148,10 +148,23 @@ fn site_ops<'a>(sp: Sp, variant: usize, idx: u32, idx2: u32) -> Vec<Operator<'a>
             1 => vec![RefFunc { function_index: idx }, Drop],
             _ => vec![ReturnCall { function_index: idx }],
         },
-        Sp::G => match variant {
-            0 => vec![GlobalGet { global_index: idx }, Drop],
-            _ => vec![c0(), GlobalSet { global_index: idx }],
-        },
+        Sp::G => {
+            let o = wasmparser::Ordering::SeqCst;
+            match variant {
+                0 => vec![GlobalGet { global_index: idx }, Drop],
+                1 => vec![c0(), GlobalSet { global_index: idx }],
+                // the atomic global operators (shared-everything threads): same immediate, other opcodes
+                2 => vec![GlobalAtomicGet { ordering: o, global_index: idx }, Drop],
+                3 => vec![c0(), GlobalAtomicSet { ordering: o, global_index: idx }],
+                4 => vec![c0(), c0(), GlobalAtomicRmwCmpxchg { ordering: o, global_index: idx }, Drop],
+                5 => vec![c0(), GlobalAtomicRmwAdd { ordering: o, global_index: idx }, Drop],
+                6 => vec![c0(), GlobalAtomicRmwXchg { ordering: wasmparser::Ordering::AcqRel, global_index: idx }, Drop],
+                7 => vec![c0(), GlobalAtomicRmwSub { ordering: o, global_index: idx }, Drop],
+                8 => vec![c0(), GlobalAtomicRmwAnd { ordering: o, global_index: idx }, Drop],
+                9 => vec![c0(), GlobalAtomicRmwOr { ordering: o, global_index: idx }, Drop],
+                _ => vec![c0(), GlobalAtomicRmwXor { ordering: o, global_index: idx }, Drop],
+            }
+        }
         Sp::M => match variant {
             0 => vec![c0(), I32Load { memarg: memarg(idx, 2) }, Drop],
             1 => vec![c0(), c0(), I32Store { memarg: memarg(idx, 2) }],
@@ -187,6 +200,15 @@ fn site_wat(sp: Sp, variant: usize, idx: u32, idx2: u32) -> String {
             Drop => "drop".into(),
             GlobalGet { global_index } => format!("global.get {global_index}"),
             GlobalSet { global_index } => format!("global.set {global_index}"),
+            GlobalAtomicGet { global_index, .. } => format!("global.atomic.get seq_cst {global_index}"),
+            GlobalAtomicSet { global_index, .. } => format!("global.atomic.set seq_cst {global_index}"),
+            GlobalAtomicRmwCmpxchg { global_index, .. } => format!("global.atomic.rmw.cmpxchg seq_cst {global_index}"),
+            GlobalAtomicRmwAdd { global_index, .. } => format!("global.atomic.rmw.add seq_cst {global_index}"),
+            GlobalAtomicRmwXchg { global_index, .. } => format!("global.atomic.rmw.xchg acq_rel {global_index}"),
+            GlobalAtomicRmwSub { global_index, .. } => format!("global.atomic.rmw.sub seq_cst {global_index}"),
+            GlobalAtomicRmwAnd { global_index, .. } => format!("global.atomic.rmw.and seq_cst {global_index}"),
+            GlobalAtomicRmwOr { global_index, .. } => format!("global.atomic.rmw.or seq_cst {global_index}"),
+            GlobalAtomicRmwXor { global_index, .. } => format!("global.atomic.rmw.xor seq_cst {global_index}"),
             I32Const { value } => format!("i32.const {value}"),
             I64Const { value } => format!("i64.const {value}"),
             F64Const { .. } => "f64.const 0".into(),
@@ -219,7 +241,17 @@ fn refs_of(op: &Operator) -> Vec<(Sp, u32)> {
     use Operator::*;
     match op {
         Call { function_index } | RefFunc { function_index } | ReturnCall { function_index } => vec![(Sp::F, *function_index)],
-        GlobalGet { global_index } | GlobalSet { global_index } => vec![(Sp::G, *global_index)],
+        GlobalGet { global_index }
+        | GlobalSet { global_index }
+        | GlobalAtomicGet { global_index, .. }
+        | GlobalAtomicSet { global_index, .. }
+        | GlobalAtomicRmwCmpxchg { global_index, .. }
+        | GlobalAtomicRmwAdd { global_index, .. }
+        | GlobalAtomicRmwXchg { global_index, .. }
+        | GlobalAtomicRmwSub { global_index, .. }
+        | GlobalAtomicRmwAnd { global_index, .. }
+        | GlobalAtomicRmwOr { global_index, .. }
+        | GlobalAtomicRmwXor { global_index, .. } => vec![(Sp::G, *global_index)],
         MemorySize { mem } | MemoryGrow { mem } | MemoryFill { mem } | MemoryInit { mem, .. } => vec![(Sp::M, *mem)],
         MemoryCopy { dst_mem, src_mem } => vec![(Sp::M, *dst_mem), (Sp::M, *src_mem)],
         I32Load { memarg }
@@ -240,6 +272,8 @@ fn refs_of(op: &Operator) -> Vec<(Sp, u32)> {
 // ---------------------------------------------------------------- decoded output
 #[derive(Default, Debug)]
 struct Decoded {
+    /// type index of each function import (by uid text)
+    imp_types: Vec<(String, u32)>,
     space: [Vec<String>; 3], // uid (as text) at each index of F, G, M; "?" when the marker is unreadable
     sites: BTreeMap<u32, String>,
     start: Option<u32>,
@@ -280,7 +314,8 @@ fn decode(wasm: &[u8], w: &World, positional: &Positional) -> Result<Decoded, St
                     let imp = imp.map_err(e2s)?;
                     let uid = imp.name[1..].to_string();
                     match imp.ty {
-                        wasmparser::TypeRef::Func(_) => {
+                        wasmparser::TypeRef::Func(t) => {
+                            d.imp_types.push((uid.clone(), t));
                             d.space[0].push(uid);
                             nimp_f += 1;
                         }
@@ -515,7 +550,8 @@ fn gen_base(r: &mut Rng, w: &mut World, shape: usize) -> Base {
     let n_fl = if shape == 7 { 0 } else { r.range(1, 4) };
     let n_gl = r.range(0, 3);
     let n_ml = r.range(if n_mi == 0 { 1 } else { 0 }, 2);
-    let mut wat = String::from("(module\n  (type (func))\n");
+    // two structurally equal function types: imports (parsed, added, converted) are declared with type 0, local functions with type 1
+    let mut wat = String::from("(module\n  (type (func))\n  (type (func))\n");
     let mut imp_tokens = vec![];
     let mut f_tokens = vec![];
     let mut g_tokens = vec![];
@@ -715,7 +751,7 @@ fn gen_base(r: &mut Rng, w: &mut World, shape: usize) -> Base {
     // code
     let mut code_tokens = vec![];
     for (uid, _h) in &local_f {
-        let mut body = format!("  (func (type 0) i32.const {} drop ", FMARK + *uid as i32);
+        let mut body = format!("  (func (type 1) i32.const {} drop ", FMARK + *uid as i32);
         let mut toks = vec![];
         let nsites = r.weighted(&[1, 3, 3, 2, 1]);
         for _ in 0..nsites {
@@ -781,11 +817,12 @@ fn gen_code_site(r: &mut Rng, w: &mut World, owner: u32) -> Option<(Vec<Site>, S
     let variant = match sp {
         Sp::F => r.weighted(&[5, 3, 1]),
         Sp::G => {
-            let settable = w.handles[h].cur.map_or(false, |u| w.entity(u).gk == Some(GKind::Marker { mutable: true }));
-            if settable && r.chance(1, 2) {
-                1
-            } else {
-                0
+            // marker globals are i32: all eleven operators apply to the mutable ones, the two reads to the others
+            let gk = w.handles[h].cur.and_then(|u| w.entity(u).gk);
+            match gk {
+                Some(GKind::Marker { mutable: true }) => *r.pick(&[0usize, 0, 1, 1, 2, 3, 4, 4, 5, 6, 7, 8, 9, 10]),
+                Some(GKind::Marker { mutable: false }) => *r.pick(&[0usize, 0, 2]),
+                _ => 0,
             }
         }
         Sp::M => {
@@ -1177,6 +1214,14 @@ pub fn run(ctx: &mut Ctx) {
                         got.sort();
                         if want != got {
                             failures.push((format!("C09,{}", props_of(sp)), format!("entities-{}-differ", sp.ch()), format!("got {got:?} want {want:?}")));
+                        }
+                    }
+                    // (2b) every function import is declared with the type it was given: type 0 (parsed imports, `add_import_func`
+                    // and `convert_local_fn_to_import` are all called with TypeID(0); the local functions have the equal type 1)
+                    for (u, t) in &d.imp_types {
+                        if *t != 0 {
+                            let props = if op_tokens.iter().any(|x| x.starts_with("l2i:")) { "C06,C11" } else { "C06" };
+                            failures.push((props.into(), "F-import-declared-with-another-type".into(), format!("import {u} has type {t}, was given type 0")));
                         }
                     }
                     // (3) every live site designates the current entity of its handle
